@@ -30,7 +30,7 @@ def generate(seed, tier):
     for i in range(n_cases):
         rng = derived_rng(seed, 'C12', i)
         while True:
-            ds = gen.gen_dataset(rng, max_dims=3, max_size=4)
+            ds = gen.gen_dataset(rng, max_dims=3, max_size=4, long_prob=0.12)
             n, m = gen.n_points(ds['pos']), gen.n_points(ds['spec'])
             if n * m <= 300 and all(len(s['sizes']) <= gen.n_points(s) for s in (ds['pos'], ds['spec'])):
                 break
